@@ -108,6 +108,13 @@ def make_resolver(fq):
                 raise SHARED_PLAIN_ERROR
             if fault == "raise_te_ctor":
                 raise CtorError(list(path), "CTOR")
+            if fault == "raise_te_enriched":
+                # a library error built without extensions, enriched in place before being raised (its own dict, it should think)
+                from tartiflette.types.exceptions import TartifletteError
+                err = TartifletteError("forbidden at %s" % (list(path),))
+                err.extensions["code"] = "FORBIDDEN"
+                err.extensions["who"] = getattr(scn, "label", None) or "someone"
+                raise err
             if fault == "raise_msgattr":
                 raise UpstreamError({"code": "not_found", "where": list(path)})
             if fault == "return_exc":
